@@ -164,7 +164,7 @@ def mutual_info_estimator_numba(
     f_values, f_value_counts = numba_unique(X)
 
     # Diagonal entries
-    if np.sum(X - Y) == 0:
+    if np.array_equal(X, Y):
         cardinality_correction = False
 
     if approximation_factor < 1.0:
